@@ -96,7 +96,7 @@ class Rec:
 
 
 class MState:
-    __slots__ = ("kind", "start", "mol", "atoms", "ident", "order", "bonds", "hist", "keep", "nmut", "view", "vkind", "confs", "vbonds", "vorder")
+    __slots__ = ("kind", "start", "mol", "atoms", "ident", "order", "bonds", "hist", "keep", "nmut", "view", "vkind", "confs", "vbonds", "vorder", "cache")
 
     def __init__(self):
         self.kind = None
@@ -114,6 +114,7 @@ class MState:
         self.confs = None
         self.vbonds = None
         self.vorder = None
+        self.cache = None
 
 
 def exc_name(e):
@@ -141,6 +142,7 @@ class MSys:
         self.seed = ctx.seed
         self.pose = POSES[ctx.seed % len(POSES)]
         self.add_elems = list(add_elems)
+        self.elem0 = sorted(add_elems)[0]  # the same for every seed: a rotation must not change the op SET
         self.full = full  # thorough alphabet (all pairs, object addressing, per-atom hydrogens)
         self.core = core  # restricted add/del/connect core (deep search)
         self.quiet = False
@@ -261,6 +263,9 @@ class MSys:
             st.ident[id(a)] = k
         st.order = list(range(len(real)))
         st.bonds = [_pair(a, b) for a, b in bonds]
+        if self.quiet:
+            self.refresh(st)
+            return True
         sym, what = self.verify(st)
         if sym:
             self.viol(st, op, sym, what)
@@ -305,10 +310,11 @@ class MSys:
             if q.dtype.kind not in "fiu":
                 return "charges-not-numeric", f"atomic_charges dtype {q.dtype}: {q.tolist()!r}"
         # -- each surviving atom keeps the coordinate / charge it was given
+        rows = c.tolist()
         for pos, aid in enumerate(ids):
             r = st.atoms[aid]
-            row = tuple(float(x) for x in c[pos])
-            if r.coord is not UNSPEC and not all(_feq(row[i], r.coord[i]) for i in range(3)):
+            row = tuple(rows[pos])
+            if r.coord is not UNSPEC and row != r.coord and not all(_feq(row[i], r.coord[i]) for i in range(3)):
                 owner = [a2 for a2, r2 in st.atoms.items() if r2.coord is not UNSPEC and all(_feq(row[i], r2.coord[i]) for i in range(3))]
                 return "coord-misaligned", f"atom #{aid} at position {pos} has row {row}, was given {r.coord} (that row belongs to atom(s) {owner})"
             if has_q and r.charge is not UNSPEC and not _feq(float(q[pos]), r.charge):
@@ -332,6 +338,15 @@ class MSys:
             return "wrong-bond-set", f"bonds (as atom-id pairs): missing {lost}, unexpected {extra}"
         if m.n_bonds != len(bonds):
             return "wrong-bond-set", f"n_bonds {m.n_bonds} != len(bonds) {len(bonds)}"
+        cnt = Counter(pairs)
+        for k, b in enumerate(bonds):
+            if cnt[pairs[k]] == 1:  # bonds compare equal by atom pair: with duplicates "the" index is not unique
+                try:
+                    ix = m.index_bond(b)
+                except Exception as e:
+                    return "bond-index-raises", f"index_bond raised {exc_name(e)}"
+                if ix != k:
+                    return "bond-index-wrong", f"bond #{k} reports index {ix}"
         # -- parents and indices
         for pos, a in enumerate(real):
             try:
@@ -358,10 +373,22 @@ class MSys:
         for pos, aid in enumerate(ids):
             r = st.atoms[aid]
             if r.coord is UNSPEC:
-                r.coord = tuple(float(x) for x in c[pos])
+                r.coord = tuple(rows[pos])
             if has_q and r.charge is UNSPEC:
                 r.charge = float(q[pos])
         return None, None
+
+    def refresh(self, st):
+        """replay of a validated prefix: only the bookkeeping of verify()"""
+        m = st.mol
+        st.order = [st.ident[id(a)] for a in m.atoms]
+        has_q = st.kind == "Molecule"
+        for pos, aid in enumerate(st.order):
+            r = st.atoms[aid]
+            if r.coord is UNSPEC:
+                r.coord = tuple(m.coords[pos].tolist())
+            if has_q and r.charge is UNSPEC:
+                r.charge = float(m.atomic_charges[pos])
 
     def derive(self, st):
         """After a composite routine (or an operation that raised) the atoms added / removed are
@@ -373,6 +400,7 @@ class MSys:
         for aid in gone:
             r = st.atoms.pop(aid)
             st.keep.append(r.obj)  # identity stays reserved
+            del st.ident[id(r.obj)]
         for a in real:
             if id(a) not in st.ident:
                 aid = self._fresh(st)
@@ -425,7 +453,7 @@ class MSys:
         ops = []
         E = self.add_elems
         if self.core:
-            ops.append(("add", E[0], "ch"))
+            ops.append(("add", self.elem0, "ch"))
             for i in range(n):
                 ops.append(("del", "idx", i))
             for e in self._distinct(st, "elem"):
@@ -441,7 +469,7 @@ class MSys:
             ops.append(("add", e, "ch"))
         for e in E:
             ops.append(("add", e, "noch"))
-        ops.append(("new", E[0]))
+        ops.append(("new", self.elem0))
         ops.append(("add_bad",))
         for i in range(n):
             ops.append(("del", "idx", i))
@@ -584,7 +612,8 @@ class MSys:
             def predict():
                 if target is not None:
                     r = st.atoms.pop(target)
-                    st.keep.append(r.obj)
+                    st.keep.append(r.obj)  # keeps the identity reserved
+                    del st.ident[id(r.obj)]
                     st.bonds = [p for p in st.bonds if target not in p]  # exactly its bonds
 
         elif kind in ("connect", "connect_obj"):
@@ -717,7 +746,9 @@ class MSys:
             sym, what = self.derive(st)
             if what:
                 what = f"after the call raised {exc_name(raised)}: {what}"
-        if sym is None:
+        if sym is None and self.quiet:
+            self.refresh(st)
+        elif sym is None:
             sym, what = self.verify(st)
             if sym and raised is not None:
                 what = f"after the call raised {exc_name(raised)}: {what}"
@@ -754,7 +785,7 @@ class MSys:
                 if got != exp:
                     if self.quiet:
                         continue
-                    sig = f"{fn}({mode}):{'raised' if isinstance(got, str) else 'wrong-atom'}"
+                    sig = f"{fn}({mode}):wrong-answer"
                     hist = st.hist + [list(op)]
                     self.ctx.violation(
                         sig,
@@ -765,6 +796,13 @@ class MSys:
 
     # ---- canonical form / observation -----------------------------------------------------
     def observe(self, st):
+        if st.cache is not None and st.cache[0] == len(st.hist):
+            return st.cache[1]
+        o = self._observe(st)
+        st.cache = (len(st.hist), o)
+        return o
+
+    def _observe(self, st):
         m = st.mol
         atoms = list(m.atoms)
         pos = {id(a): i for i, a in enumerate(atoms)}
@@ -1172,14 +1210,24 @@ def run(ctx):
 
     inits = _inits_M(ctx)
     ctx.note("start_states_sound", len(inits))
-    depth = 5 if thorough else 3
-    seqx.pbfs(ctx, lambda c: MSys(c, add_elems=elems, full=thorough, label="M"), inits, depth, nproc=nproc, chunk=16)
-    ctx.bound["M_full_alphabet_depth"] = depth
-    ctx.bound["M_add_elements"] = list(elems)
+    small = [h for h in inits if h[0][2] in ("empty", "chain3", "unpickled") or (h[0][1], h[0][2]) == ("Molecule", "star4")]
+    mk_full = lambda c: MSys(c, add_elems=elems, full=thorough, label="M")
+    mk_core = lambda c: MSys(c, add_elems=elems, core=True, label="Mc")
 
-    dcore = 8 if thorough else 5
-    seqx.pbfs(ctx, lambda c: MSys(c, add_elems=elems, core=True, label="Mc"), inits, dcore, nproc=nproc, chunk=32)
-    ctx.bound["M_core_alphabet_depth"] = dcore
+    # (1) every start state, full alphabet
+    d_all = 3 if thorough else 2
+    seqx.pbfs(ctx, mk_full, inits, d_all, nproc=nproc, chunk=16)
+    ctx.bound["full_alphabet_all_starts_depth"] = d_all
+    # (2) one level deeper from the small start states (branching grows with the atom count)
+    d_small = 4 if thorough else 3
+    seqx.pbfs(ctx, mk_full, small, d_small, nproc=nproc, chunk=16)
+    ctx.bound["full_alphabet_small_starts_depth"] = d_small
+    ctx.bound["small_starts"] = [f"{h[0][1]}/{h[0][2]}" for h in small]
+    ctx.bound["add_elements"] = list(elems)
+    # (3) the add / delete / connect core, deep
+    dcore = 7 if thorough else 5
+    seqx.pbfs(ctx, mk_core, small, dcore, nproc=nproc, chunk=32)
+    ctx.bound["core_alphabet_small_starts_depth"] = dcore
 
     vin = _inits_V(ctx)
     dv = 5 if thorough else 4
